@@ -106,6 +106,13 @@ def gen_values(rng, n):
         if v not in seen:
             seen.add(v)
             out.append(list(v))
+    if n >= 4 and rng.random() < 0.15:
+        # a few very long values sharing a prefix of >= 64 KiB (given by generator parameters, expanded by the runner)
+        k = rng.randint(2, min(6, n - 1))
+        ln = rng.choice([65536, 65537, 70000, 131072, 200000])
+        kind = rng.choice(["l", "l", "lb"])
+        for j, pos in enumerate(rng.sample(range(n), k)):
+            out[pos] = [kind, "x", ln, rng.choice(["|%d", "%d", "tail-%d"]) % j]
     return out
 
 
@@ -212,13 +219,31 @@ def py_check(W, ops, lens):
     return None
 
 
-def shrink(case, oracle, raised=False, prop_level=False):
+def unseparated(r, used=None):
+    """Pairs of values with different xxh32 digests (different payloads) that the implementation's own _hasher_update,
+    read at p = 31 (register index = the low 31 bits of whatever digest it uses), cannot tell apart."""
+    groups = {}
+    for i, o in enumerate(r.get("own31") or []):
+        if o is not None and (used is None or i in used):
+            groups.setdefault(tuple(o), []).append(i)
+    pairs = []
+    for g in groups.values():
+        for a in range(len(g)):
+            for b in range(a + 1, len(g)):
+                if r["hashes"][g[a]] != r["hashes"][g[b]]:
+                    pairs.append((g[a], g[b]))
+    return pairs
+
+
+def shrink(case, oracle, raised=False, prop_level=False, need_unsep=False):
     """Greedy op deletion while implementation and mirror still disagree (re-running the real code)."""
     cur = case
 
     def bad(c, r):
         if not r["ok"]:
             return raised          # keep the kind of failure: a raising run only shrinks to raising runs
+        if need_unsep and not unseparated(r, set(c["ops"])):      # ... values the hash fails to separate stay in the case
+            return False
         if prop_level:             # ... and a failure of the property's own clauses stays one
             return py_check(c["W"], c["ops"], r["lens"]) is not None
         if oracle == "xxh":
@@ -359,8 +384,14 @@ def check_small(run, cases, device_ok=True):
             ks = {len(c["ops"]) - 1} | ({r["first_cold"]["at"]} if r["first_cold"] else set())
             pl, ps = mirror(c["p"], c["W"], 64 - c["p"], hs, c["ops"], ks)
             if compare(c, r, pl, ps) is None and hs != r["hashes"]:
-                alt.append((i, hs, sorted(ks)))
-                continue
+                up = unseparated(r)
+                if len(up) < 2:
+                    alt.append((i, hs, sorted(ks)))
+                    continue
+                # "another hash function" is only acceptable while it still separates distinct values
+                d = (d[0], d[1] + "; the implementation's hash does not separate %d pairs of distinct values of this case, e.g. "
+                     "value #%d and value #%d (%s / %s): not merely another hash function"
+                     % (len(up), up[0][0], up[0][1], str(c["values"][up[0][0]])[:60], str(c["values"][up[0][1]])[:60]))
         real_fails.append((i, d, "xxh"))
     if alt:
         avals = vlib.coq_eval("C14", HEADER, [coq_expr(cases[i], hs, ks) for i, hs, ks in alt], shard=12)
@@ -386,7 +417,8 @@ def check_small(run, cases, device_ok=True):
         plevel = r["ok"] and py_check(c["W"], c["ops"], r["lens"]) is not None
         if plevel:
             cut = dict(c, ops=c["ops"][:py_check(c["W"], c["ops"], r["lens"]) + 1])
-        small = shrink(cut, oracle, raised=not r["ok"], prop_level=plevel) if len(cut["ops"]) > 1 else cut
+        small = shrink(cut, oracle, raised=not r["ok"], prop_level=plevel,
+                       need_unsep=r["ok"] and len(unseparated(r)) >= 2) if len(cut["ops"]) > 1 else cut
         rr = vlib.run_impl("impl_c14.py", {"cases": [small]})["results"][0]
         verdict = None
         model = None
@@ -419,6 +451,10 @@ def check_small(run, cases, device_ok=True):
                 d2 = compare(small, rr, [tuple(x) for x in model], mirror(small["p"], small["W"], 64 - small["p"], hs2, small["ops"], ks2)[1])
             clause = ("correspondence with the model (warm: exact set; cold: registers = per-bucket maximum rank, "
                       "len = LC(m - #touched)): " + (d2 or d)[1])
+            up2 = unseparated(rr)
+            if up2:
+                clause += ("; the implementation's hash does not separate value #%d and value #%d (%s / %s), whose payloads and "
+                           "xxh32 digests differ" % (up2[0][0], up2[0][1], str(small["values"][up2[0][0]])[:60], str(small["values"][up2[0][1]])[:60]))
         run.violation("counterexample", "C14 model/implementation correspondence", case=small,
                       impl={"lens": rr["lens"], "flags": rr["flags"], "final": rr["final"], "error": rr["error"]},
                       model=repr(model)[:3000], clause=clause, extra={"checker_verdict": verdict, "oracle": oracle,
@@ -725,12 +761,12 @@ def check(run, replay):
         pipe = pipe_corpus + [gen_pipeline(run.rng) for _ in range(40 if run.tier == "quick" else 300)]
         s = run.rng.randint(0, 10 ** 6)
         if run.tier == "quick":
-            big = [{"family": "hex", "n": W_REAL + 3000, "seed": s, "dups": 0.05}]
+            big = [{"family": "hex", "n": W_REAL + 3000, "seed": s, "dups": 0.05, "long": 8000, "long_len": 65536}]
         else:
             big = [{"family": "hex", "n": (1 << 21) + 40000, "seed": s, "dups": 0.03},
                    {"family": "seq", "n": (1 << 21) + 1000, "seed": s + 1, "dups": 0.02},
                    {"family": "rand", "n": (1 << 20), "seed": s + 2, "dups": 0.05},
-                   {"family": "bytes", "n": W_REAL + 5000, "seed": s + 3, "dups": 0.3}]
+                   {"family": "bytes", "n": W_REAL + 5000, "seed": s + 3, "dups": 0.3, "long": 20000, "long_len": 70001}]
         big = big_corpus + big
         pipe_big = [c["pipeline_big"] for c in corpus if "pipeline_big" in c]
         pipe_big += [{"seed": run.rng.randint(0, 10 ** 6), "before": run.rng.choice([1, 50, 200]), "new": run.rng.choice([2, 120])}
